@@ -1,4 +1,5 @@
 import Driver.Ops.Tftp
+import Driver.Ops.Matcher
 /-
 Line protocol: one JSON object per input line with a field "op"; one JSON object per
 output line: {"ok": <result>} or {"err": "<message>"}.
@@ -7,6 +8,7 @@ open Lean Driver
 
 def allOps : List (String × Op) :=
   Driver.Tftp.ops
+  ++ Driver.Matcher.ops
 
 def handleLine (line : String) : String :=
   match Json.parse line with
@@ -28,6 +30,7 @@ partial def loop (hin hout : IO.FS.Stream) : IO Unit := do
   let t := line.trimAscii.toString
   if !t.isEmpty then
     hout.putStrLn (handleLine t)
+    hout.flush   -- C18 keeps one driver process open and waits for each answer
   loop hin hout
 
 def main : IO Unit := do
